@@ -42,6 +42,7 @@ HAND = {"core_shell_ellipsoid:1": ["equat_core", "equat_shell", "polar_core", "p
         "spherical_sld": None,   # everything (func_inter / n_shells rewriting)
         "teubner_strey": None,
         "core_shell_parallelepiped": ["rimA", "rimB", "rimC"]}
+UNIT_ONLY = ("polymer_micelle", "rpa")
 VERSIONS = [(3, 1, 2), (4, 0, 0), (4, 1, 2), (4, 2, 0), (5, 0, 0), (5, 0, 4), (5, 1, 0)]
 
 
@@ -252,6 +253,18 @@ def run_case(case, rec):
         for o in chosen:
             if is_hand and (hand is None or any(o == h or o.startswith(h + ".") for h in hand)
                             or (target != "hollow_cylinder" and any(o.startswith(h) for h in hand))):
+                # a hand conversion that only changes the unit of the value (number density, scattering lengths):
+                # the dispersity attributes are pure numbers and a distribution name, and still have to arrive as given
+                n = magnetic_new(old2new[o])
+                if target in UNIT_ONLY and n in nameset:
+                    for a in (".width", ".npts", ".nsigmas", ".type"):
+                        if o + a in original:
+                            nk = n + (UNDERSCORE[a] if use_underscore else a)
+                            rec.bucket("hand:unit-change:attribute")
+                            rec.check("value_carried", nk in newpars and newpars[nk] == original[o + a],
+                                      dict(ctx, old_key=o + a, expected_key=nk, value=original[o + a],
+                                           got=newpars.get(nk)),
+                                      key="C20/carry-unit-change-attribute/%s/%s" % (target, a))
                 continue
             n = magnetic_new(old2new[o])
             if n not in nameset:
